@@ -242,7 +242,7 @@ def check_C05(tier, seed):
             ('two-ports-rel', consts('PCfg_A', [6, 248], [0, 1, 2, 254], [0, 1, 3, 4, 5, 6, 7, 8], [3, 7], ['L', 'M']), w2, 'release'),
             ('master-only', consts('PCfg_B', [6, 127, 248], [0, 1, 2, 254], [0, 1, 3, 7, 8], [3, 7], ['L', 'M'], so=(False, True)), world([e2e(), e2e(mo=True)]), 'release'),
             ('master-only-dev', consts('PCfg_B', [6, 248], [0, 1, 254], [0, 1, 7, 8], [3, 7], ['L', 'M']), world([e2e(), e2e(mo=True)]), 'dev'),
-            ('multi', consts('PCfg_A', [6, 248], [0, 1, 2], [0, 1, 3, 7, 8], [3, 7], ['L', 'M'], multi=True), w2, 'dev'),
+            ('multi', consts('PCfg_A', [248], [0, 1], [0, 1, 3, 8], [3, 7], ['L'], multi=True), w2, 'dev'),
             ('second-round', consts('PCfg_A', [6, 248], [0, 1, 2, 254], [0, 1, 3, 7, 8], [3, 7], ['L', 'M'], rounds=2), w2, 'dev'),
             ('late-masters', consts('PCfg_A', [6, 248], [0, 1, 2], [0, 1, 3, 7, 8], [3, 7], ['L', 'M'], rounds=2, late=True), w2, 'dev'),
             ('same-clock-two-ports', consts('PCfg_A', [248], [0, 1], [1, 7, 8], [3], ['L'], multi=True, rounds=2, sndports=(1, 2), latesecond=True), w2, 'dev'),
